@@ -384,6 +384,15 @@ def ev(term, st, ctx):
     raise ValueError(term)
 
 
+def before_of_other_branch(term):
+    """before: applied (directly) to a revno:N:BRANCH specifier somewhere in the term."""
+    if term[0] in ("before", "mainline"):
+        if term[0] == "before" and term[1][0] == "revno_in":
+            return True
+        return before_of_other_branch(term[1])
+    return False
+
+
 def head_of(term):
     return term[0] + (":" + head_of(term[1]) if term[0] in ("before", "mainline") else "")
 
@@ -637,6 +646,10 @@ def execute(sim, plan):
 
                 got = run(fn)
                 got_id = ("ok", got[1][0]) if got[0] == "ok" else got
+                if before_of_other_branch(term) and exp[0] == "rev" and got_id != ("ok", exp[1]) and got[0] != "crash":
+                    # in_history mixes the two branches: number from the named branch, lookup in the context branch
+                    deviation("spec_before_other_branch", "before:revno:N:BRANCH:in_history", f"{s!r}.in_history: expected {exp[1]} (left-hand parent of revision {term} of the other branch) got {got}")
+                    return
                 judge("spec", head_of(term) + ":in_history", exp, got_id, f"{s!r}.in_history")
                 if got[0] == "ok" and exp[0] in ("rev", "null", "null_or_err") and term[0] != "revno_in":
                     rid = got[1][0]
@@ -659,10 +672,16 @@ def execute(sim, plan):
                 deviation("spec_needs_caller_lock", "mainline", f"range {text!r} on an unlocked branch: {got[1]}")
                 return
             if got[0] != "ok":
+                if got[0] == "refused" and (before_of_other_branch(q[1]) or before_of_other_branch(q[2])):
+                    deviation("spec_before_other_branch", "before:revno:N:BRANCH:in_history", f"range {text!r} refused: {got[1]}; expected {ea}..{eb}")
+                    return
                 if ea[0] in ("rev", "null") and eb[0] in ("rev", "null"):
                     fail("spec", "range", f"range {text!r} failed: {got[1]}; expected {ea}..{eb}")
                 return
-            for e, (rid, rn), s in ((ea, got[1][0], sa), (eb, got[1][1], sb)):
+            for e, (rid, rn), s, t in ((ea, got[1][0], sa, q[1]), (eb, got[1][1], sb, q[2])):
+                if before_of_other_branch(t) and e[0] == "rev" and rid != e[1]:
+                    deviation("spec_before_other_branch", "before:revno:N:BRANCH:in_history", f"endpoint {s!r} of range {text!r}: expected {e[1]} got {rid}")
+                    continue
                 judge("spec", "range", e, ("ok", rid), f"endpoint {s!r} of range {text!r}")
         else:
             raise ValueError(q)
